@@ -501,7 +501,8 @@ pub fn run_check(prop: &dyn Property, tier_s: &str, cfg: &CheckConfig) -> i32 {
         for (profile, idx, how) in &hard_crashes {
             eprintln!("worker ({profile}) died or hung at index {idx}: {how}");
         }
-        if prop.id() == "C04" {
+        // properties whose statement includes termination own a run that kills or hangs its worker process
+        if matches!(prop.id(), "C04" | "C10" | "C13") {
             let (profile, idx, how) = &hard_crashes[0];
             let seed = seed_for(cfg.batch_seed, prop.id(), *idx);
             if let Some(sc) = prop.gen(seed, tier).into_iter().next() {
